@@ -52,3 +52,16 @@ def check_C15(ctx):
 
 
 CHECKS["C15"] = check_C15
+
+
+# ---------------------------------------------------------------- C16
+def check_C16(ctx):
+    ctx.proofs()
+    st = {"name": "copy", "harness": "copy", "driver": "copy"}
+    mm = ctx.stream("copy", "copy", "copy")
+    if mm is None:
+        return
+    report_mismatches(ctx, mm, st, "CopyFile/CopyFileHash/HashFile differ from the model (proved to report every hit fault and to copy faithfully, theorems C16_ok/C16_reports) on %d (fs pair, content, fault plan) cases")
+
+
+CHECKS["C16"] = check_C16
